@@ -427,12 +427,32 @@ def sig_empty_key(case):
     return "K:" in case.split()
 
 
+VARIANT = dict(lit_by_value=False, fmt_by_value=False)     # filled by detect_variant()
+
+
 def sig_unsigned_above(case):
     for t in case.split():
         m = re.match(r"^I(u32|u64):(\d+)", t)
-        if m and int(m.group(2)) > (2**31 - 1 if m.group(1) == "u32" else 2**63 - 1):
+        if not m:
+            continue
+        if m.group(1) == "u64" and int(m.group(2)) > 2**63 - 1:
+            return True
+        if m.group(1) == "u32" and int(m.group(2)) > 2**31 - 1 and not VARIANT["lit_by_value"]:
             return True
     return False
+
+
+def detect_variant(impl, env):
+    """Which primitive::load is in the library under test: the pinned one (every unsuffixed literal is int32) or the one of
+    fixes/C14-1 / C14-2 (literals typed by value)?  Two probes decide; the model has both variants and every theorem holds
+    for each, so this selects, it does not weaken."""
+    probes = ["P " + hexs(b"4294967296"), "P " + hexs(b"0x80000000")]
+    out = C.run_impl_isolating([impl], probes, env=env)
+    VARIANT["lit_by_value"] = out[0].startswith("R tree=Ii64:4294967296@")
+    VARIANT["fmt_by_value"] = out[1].startswith("R tree=Iu32:2147483648@")
+    os.environ["C24_LIT_BY_VALUE"] = "1" if VARIANT["lit_by_value"] else "0"
+    os.environ["C24_FMT_BY_VALUE"] = "1" if VARIANT["fmt_by_value"] else "0"
+    return dict(VARIANT, probe_outputs=out)
 
 
 def sanitize(case):
@@ -446,7 +466,7 @@ def sanitize(case):
             t = t[:2] + "".join("61" if h[i:i + 2] == "00" else h[i:i + 2] for i in range(0, len(h), 2))
         else:
             m = re.match(r"^I(u32|u64):(\d+)(.*)$", t)
-            if m:
+            if m and (m.group(1) == "u64" or not VARIANT["lit_by_value"]):
                 lim = 2**31 - 1 if m.group(1) == "u32" else 2**63 - 1
                 t = "I%s:%d%s" % (m.group(1), int(m.group(2)) & lim, m.group(3))
         out.append(t)
@@ -527,7 +547,7 @@ def run(run, tier, seed, replay_case=None):
 
     rng = random.Random(seed * 7919 + 24)
     corpus = C.load_corpus(PROP)
-    nt, np_ = (1500, 1200) if tier == "quick" else (40000, 30000)
+    nt, np_ = (1300, 1000) if tier == "quick" else (12000, 9000)
     cases = list(corpus) + ["P " + hexs(s.encode("utf8")) for s in P_SEEDS]
     cases += [gen_tcase(rng, tier) for _ in range(nt)] + [gen_pcase(rng) for _ in range(np_)]
     if replay_case is not None:
@@ -535,7 +555,10 @@ def run(run, tier, seed, replay_case=None):
     env = dict(C.lib_env("asan"))
     # reads past the terminating NUL are expected on some malformed texts (model: Oob); without symbolisation the
     # sanitizer report costs milliseconds instead of seconds
-    env["ASAN_OPTIONS"] += ":symbolize=0"
+    # (the driver turns such a read into "R OOB" through a guard page and a SIGSEGV handler; leaving libocca through
+    # siglongjmp skips destructors, so leak checking is off for this check: leaks are not what C24 is about)
+    env["ASAN_OPTIONS"] += ":symbolize=0:detect_leaks=0"
+    run.coverage["primitive_load_variant"] = detect_variant(impl, env)
     D = Diff24(run, PROP, [impl], model, env, view=view, signatures=SIGNATURES, keep_first=2,
                model_desc="coq/C24/Model.v vs src/types/json.cpp, src/types/primitive.cpp")
     I, R, S = D.eval(cases)
@@ -548,35 +571,53 @@ def run(run, tier, seed, replay_case=None):
     fails = [i for i in range(len(cases)) if D.fails_spec(I[i], S[i])]
     seen = {}
 
-    def still(cs):
-        i1, r1, s1 = D.eval(cs, parallel=False)
-        return [D.fails_spec(a, b) for a, b in zip(i1, s1)]
+    def sigs_of(c):
+        return set(n for n, f in SIGNATURES.items() if f(c))
+
+    def still_for(orig):
+        """a candidate must still fail and must not pick up a known-finding trigger the original did not have
+        (an unescaped-key failure must not slide into the empty-key finding while its key is being shortened)"""
+        base = sigs_of(orig)
+
+        def still(cs):
+            i1, r1, s1 = D.eval(cs, parallel=False)
+            return [D.fails_spec(a, b) and sigs_of(c) <= base for c, a, b in zip(cs, i1, s1)]
+        return still
     groups = {}
     for i in fails:
         key = (tuple(sorted(n for n, f in SIGNATURES.items() if f(cases[i]))), view(I[i]))
         groups.setdefault(key, []).append(i)
-    to_shrink, rest = [], []
+    per_group, rest = [], []
     for key, idx in groups.items():
-        keep = 2 if key[0] else 6
-        to_shrink += idx[:keep]
+        keep = 1 if key[0] else 6
+        per_group.append(idx[:keep])
         rest += idx[keep:]
+    # round-robin over the groups, so that the bound on shrinking never drops a whole group
+    to_shrink = [g[n] for n in range(6) for g in per_group if n < len(g)]
+    independent = []        # cases that fail for a reason other than the known-finding triggers they contain
     if rest:
         san = [sanitize(cases[i]) for i in rest]
         i1, r1, s1 = D.eval(san, parallel=len(san) > 40)
         for j, i in enumerate(rest):
             if D.fails_spec(i1[j], s1[j]):
                 cases[i], I[i], R[i], S[i] = san[j], i1[j], r1[j], s1[j]
-                to_shrink.append(i)
+                independent.append(i)
+        to_shrink = independent[:6] + to_shrink
     for n, i in enumerate(to_shrink):
-        if n >= 12:
+        if n >= 14:
             break
-        small = shrink_case(cases[i], still)
+        small = shrink_case(cases[i], still_for(cases[i]))
         if small != cases[i]:
             i1, r1, s1 = D.eval([small], parallel=False)
             cases[i], I[i], R[i], S[i] = small, i1[0], r1[0], s1[0]
         seen[small] = seen.get(small, 0) + 1
-    run.coverage["failing_cases"] = dict(total=len(fails), groups=len(groups), shrunk=min(len(to_shrink), 12))
-    D.judge(cases, I, R, S, proof_failures=pr["failures"], shrink=False)
+    run.coverage["failing_cases"] = dict(total=len(fails), groups=len(groups), shrunk=min(len(to_shrink), 14))
+    # every group of failing cases is judged through its shrunk representatives
+    keep = set(to_shrink[:14]) | set(g[0] for g in per_group)      # a group beyond the bound goes in unshrunk
+    sel = [i for i in range(len(cases)) if i in keep or not D.fails_spec(I[i], S[i])]
+    D.judge([cases[i] for i in sel], [I[i] for i in sel], [R[i] for i in sel], [S[i] for i in sel],
+            proof_failures=pr["failures"], shrink=False)
+    run.coverage["evaluations"] = len(cases)
 
     # hash observations on the plain library: same hash whatever the insertion order; hash = hash(dump(0))
     tcases = [c for c in cases if c.startswith("T ")]
